@@ -111,6 +111,13 @@ var c10Inits = []func() *input.Point{
 	func() *input.Point {
 		return input.InitPt(&input.Point{}, "m", map[string]string{"t": "", "n2": "x"}, map[string]any{"f": float32(1.5), "message": nil, "n1": uint(3)}, time.Unix(1700000000, 0))
 	},
+	// initial fields of every Go number type at the edges of their ranges
+	func() *input.Point {
+		return input.InitPt(&input.Point{}, "m", map[string]string{"t": "9"}, map[string]any{"f": uint64(1<<63 + 5), "message": ^uint64(0), "n1": int8(-128), "n2": float32(-0.0)}, time.Unix(1700000000, 0))
+	},
+	func() *input.Point {
+		return input.InitPt(&input.Point{}, "m", nil, map[string]any{"f": uint(1 << 63), "message": int32(-1 << 31), "n1": uint16(65535), "n2": uint32(1<<32 - 1), "t": int64(-1 << 63)}, time.Unix(1700000000, 0))
+	},
 }
 
 func clonePoint(p *input.Point) *input.Point {
